@@ -1,6 +1,252 @@
-(* C20 - placeholder replaced by the real statements (kept compiling at every commit). *)
-From Coq Require Import ZArith List.
-From Verif Require Import Num.Amount Calc.Doc Calc.Merge.
-Theorem negate_of_empty_summary z p : tt_negate (mkTT nil z p) = mkTT nil (negate z) (negate p).
-Proof. reflexivity. Qed.
-Print Assumptions negate_of_empty_summary.
+(* C20 - merging and negating tax summaries (tax.Total Merge / Negate / Calculate), payment totals.
+
+   Vocabulary (Calc/MergeProofs.v):
+     wf_tt c t            t is a summary at currency precision c: category codes pairwise distinct,
+                          rate groups of a category pairwise non-matching (rt_Matches), every presented
+                          amount with exactly c decimals; an exempt group has no surcharge rate and a
+                          group without surcharge rate has surcharge amount 0 (Go: one optional struct).
+                          The unexported working-precision amounts (ct_precise, tt_precise) are free.
+     group_base/amount/suramount t code key, has_group t code key
+                          the integer (in units of 10^-c) of the rate group of category [code]
+                          matching [key]; 0 / false when there is no such group
+     cat_amount t code, cat_surcharge t code (option), has_cat t code
+   The model is purely functional: neither Merge nor Negate can alter an operand, so that clause of the
+   property is checked on the Go side only (tools/props/c20.py). *)
+From Coq Require Import ZArith QArith List Bool.
+From Verif Require Import Base.Wire Num.Amount Num.AmountProofs Calc.Doc Calc.Calc Calc.Merge Calc.MergeProofs.
+Import ListNotations.
+Open Scope Z_scope.
+
+(* ---------- (a) RateTotal.Matches partitions rate groups ---------- *)
+Theorem matches_is_equivalence :
+  (forall a, rt_Matches a a = true) /\
+  (forall a b, rt_Matches a b = rt_Matches b a) /\
+  (forall a b c, rt_Matches a b = true -> rt_Matches b c = true -> rt_Matches a c = true).
+Proof. exact (conj rt_Matches_refl (conj rt_Matches_sym rt_Matches_trans)). Qed.
+Print Assumptions matches_is_equivalence.
+
+(* ---------- (b) Merge adds component-wise ---------- *)
+Theorem merge_componentwise c t1 t2 : wf_tt c t1 -> wf_tt c t2 ->
+  let m := tt_merge t1 t2 in
+  wf_tt c m /\
+  (forall code key,
+     group_base m code key = group_base t1 code key + group_base t2 code key /\
+     group_amount m code key = group_amount t1 code key + group_amount t2 code key /\
+     group_suramount m code key = group_suramount t1 code key + group_suramount t2 code key /\
+     has_group m code key = has_group t1 code key || has_group t2 code key) /\
+  (forall code,
+     cat_amount m code = cat_amount t1 code + cat_amount t2 code /\
+     cat_surcharge m code = opt_sum (cat_surcharge t1 code) (cat_surcharge t2 code) /\
+     has_cat m code = has_cat t1 code || has_cat t2 code) /\
+  val (tt_sum m) = val (tt_sum t1) + val (tt_sum t2).
+Proof. exact (MergeProofs.merge_componentwise c t1 t2). Qed.
+Print Assumptions merge_componentwise.
+
+Example wf_summaries_exist : wf_tt 2 ex_tt /\ wf_tt 2 ex_tt2 /\ has_group ex_tt ex_code ex_rt = true.
+Proof. exact (conj ex_tt_wf (conj ex_tt2_wf eq_refl)). Qed.
+
+(* any sequence of merges, as a payment performs over its lines *)
+Theorem merge_all_componentwise c ts : Forall (wf_tt c) ts -> forall t, wf_tt c t ->
+  let m := fold_left tt_merge ts t in
+  wf_tt c m /\
+  (forall code key,
+     group_base m code key = group_base t code key + zsum (map (fun x => group_base x code key) ts) /\
+     group_amount m code key = group_amount t code key + zsum (map (fun x => group_amount x code key) ts) /\
+     group_suramount m code key =
+       group_suramount t code key + zsum (map (fun x => group_suramount x code key) ts)) /\
+  (forall code,
+     cat_amount m code = cat_amount t code + zsum (map (fun x => cat_amount x code) ts) /\
+     cat_surcharge m code = fold_left opt_sum (map (fun x => cat_surcharge x code) ts) (cat_surcharge t code)) /\
+  val (tt_sum m) = val (tt_sum t) + zsum (map (fun x => val (tt_sum x)) ts).
+Proof. exact (MergeProofs.merge_all_componentwise c ts). Qed.
+Print Assumptions merge_all_componentwise.
+
+(* ---------- (c) operand order affects row order only ---------- *)
+Theorem merge_comm_up_to_order c t1 t2 : wf_tt c t1 -> wf_tt c t2 ->
+  let a := tt_merge t1 t2 in
+  let b := tt_merge t2 t1 in
+  (forall code key,
+     group_base a code key = group_base b code key /\
+     group_amount a code key = group_amount b code key /\
+     group_suramount a code key = group_suramount b code key /\
+     has_group a code key = has_group b code key) /\
+  (forall code,
+     cat_amount a code = cat_amount b code /\
+     cat_surcharge a code = cat_surcharge b code /\
+     has_cat a code = has_cat b code) /\
+  val (tt_sum a) = val (tt_sum b) /\ exp (tt_sum a) = exp (tt_sum b).
+Proof. exact (MergeProofs.merge_comm_up_to_order c t1 t2). Qed.
+Print Assumptions merge_comm_up_to_order.
+
+(* ---------- (d) Negate ---------- *)
+(* row by row, in place: tt_negated / ct_negated / rt_negated say every amount field (base, amount,
+   surcharge amount; category amount, surcharge, precise amount; sum, precise sum) is [negate] of the
+   original and every other field is unchanged *)
+Theorem negate_flips_everything t : tt_negated (tt_negate t) t.
+Proof. exact (MergeProofs.negate_flips_everything t). Qed.
+Print Assumptions negate_flips_everything.
+
+Theorem negate_flips_lookup t :
+  (forall code key,
+     group_base (tt_negate t) code key = - group_base t code key /\
+     group_amount (tt_negate t) code key = - group_amount t code key /\
+     group_suramount (tt_negate t) code key = - group_suramount t code key /\
+     has_group (tt_negate t) code key = has_group t code key) /\
+  (forall code,
+     cat_amount (tt_negate t) code = - cat_amount t code /\
+     cat_surcharge (tt_negate t) code = option_map Z.opp (cat_surcharge t code) /\
+     has_cat (tt_negate t) code = has_cat t code) /\
+  val (tt_sum (tt_negate t)) = - val (tt_sum t) /\
+  val (tt_precise (tt_negate t)) = - val (tt_precise t) /\
+  (forall c, wf_tt c t -> wf_tt c (tt_negate t)).
+Proof. exact (MergeProofs.negate_flips_lookup t). Qed.
+Print Assumptions negate_flips_lookup.
+
+Theorem negate_involutive t : tt_negate (tt_negate t) = t.
+Proof. exact (tt_negate_involutive t). Qed.
+Print Assumptions negate_involutive.
+
+Theorem merge_negate_zero c t : wf_tt c t ->
+  let m := tt_merge t (tt_negate t) in
+  (forall code key,
+     group_base m code key = 0 /\ group_amount m code key = 0 /\ group_suramount m code key = 0 /\
+     has_group m code key = has_group t code key) /\
+  (forall code,
+     cat_amount m code = 0 /\
+     cat_surcharge m code = option_map (fun _ => 0) (cat_surcharge t code) /\
+     has_cat m code = has_cat t code) /\
+  val (tt_sum m) = 0 /\ val (tt_precise m) = 0 /\ wf_tt c m.
+Proof. exact (MergeProofs.merge_negate_zero c t). Qed.
+Print Assumptions merge_negate_zero.
+
+(* ---------- (e) the shipped code (before the repairs recorded in KNOWN_FINDINGS.json) ---------- *)
+Theorem negate_flips_everything_shipped_refuted :
+  exists c t code key, wf_tt c t /\
+    group_suramount (tt_negate_shipped t) code key <> - group_suramount t code key /\
+    cat_surcharge (tt_negate_shipped t) code <> option_map Z.opp (cat_surcharge t code).
+Proof. exact MergeProofs.negate_flips_everything_shipped_refuted. Qed.
+Print Assumptions negate_flips_everything_shipped_refuted.
+
+Theorem merge_comm_shipped_refuted :
+  exists c t1 t2 code, wf_tt c t1 /\ wf_tt c t2 /\
+    cat_surcharge (tt_merge_shipped t1 t2) code <> cat_surcharge (tt_merge_shipped t2 t1) code.
+Proof. exact MergeProofs.merge_comm_shipped_refuted. Qed.
+Print Assumptions merge_comm_shipped_refuted.
+
+Theorem merge_negate_zero_shipped_refuted :
+  exists c t code key, wf_tt c t /\
+    group_suramount (tt_merge_shipped t (tt_negate_shipped t)) code key <> 0 /\
+    cat_surcharge (tt_merge_shipped t (tt_negate_shipped t)) code <> Some 0.
+Proof. exact MergeProofs.merge_negate_zero_shipped_refuted. Qed.
+Print Assumptions merge_negate_zero_shipped_refuted.
+
+(* a correctly calculated summary (fixed point of the repaired Calculate) changes under the shipped
+   Calculate, and changes again at every further recalculation *)
+Theorem recalculation_accumulates_surcharge_shipped_refuted :
+  exists cr c t code, wf_tt c t /\ tt_calculate cr c t = t /\
+    cat_surcharge (tt_calculate_shipped cr c t) code <> cat_surcharge t code /\
+    cat_surcharge (tt_calculate_shipped cr c (tt_calculate_shipped cr c t)) code
+      <> cat_surcharge (tt_calculate_shipped cr c t) code.
+Proof. exact MergeProofs.recalculation_accumulates_surcharge_shipped_refuted. Qed.
+Print Assumptions recalculation_accumulates_surcharge_shipped_refuted.
+
+(* the repaired Calculate is idempotent when the bases already have c decimals (bases_at c t) ... *)
+Theorem tt_calculate_idempotent_partial cr c t : bases_at c t ->
+  tt_calculate cr c (tt_calculate cr c t) = tt_calculate cr c t.
+Proof. exact (MergeProofs.tt_calculate_idempotent_partial cr c t). Qed.
+Print Assumptions tt_calculate_idempotent_partial.
+
+Example bases_at_exists : bases_at 2 ex_tt.
+Proof. repeat constructor. Qed.
+
+(* ... hence always from its second application on ... *)
+Theorem tt_calculate_idempotent_after_first cr c t :
+  let t1 := tt_calculate cr c t in
+  tt_calculate cr c (tt_calculate cr c t1) = tt_calculate cr c t1.
+Proof. exact (MergeProofs.tt_calculate_idempotent_after_first cr c t). Qed.
+Print Assumptions tt_calculate_idempotent_after_first.
+
+(* ... but not on a summary with finer bases (rounding the base first moves the tax) *)
+Theorem tt_calculate_idempotent_refuted :
+  exists cr c t, tt_calculate cr c (tt_calculate cr c t) <> tt_calculate cr c t.
+Proof. exact MergeProofs.tt_calculate_idempotent_refuted. Qed.
+Print Assumptions tt_calculate_idempotent_refuted.
+
+(* ---------- (f) payments ---------- *)
+(* pl_side: one side (debit or credit) of a line in the payment currency - 0 when absent, None when
+   there is no exchange rate; toQ is the rational an amount denotes *)
+Theorem payment_line_total rates cur c l :
+  match pl_side rates cur c l (pl_debit l), pl_side rates cur c l (pl_credit l) with
+  | Some d, Some k => exists lt, pl_total true rates cur c l = Some lt /\ toQ lt == toQ d - toQ k
+  | _, _ => pl_total true rates cur c l = None
+  end.
+Proof. exact (MergeProofs.payment_line_total rates cur c l). Qed.
+Print Assumptions payment_line_total.
+
+Theorem payment_line_total_shipped_refuted :
+  exists rates cur c l d k lt,
+    pl_side rates cur c l (pl_debit l) = Some d /\ pl_side rates cur c l (pl_credit l) = Some k /\
+    pl_total false rates cur c l = Some lt /\ ~ toQ lt == toQ d - toQ k.
+Proof. exact MergeProofs.payment_line_total_shipped_refuted. Qed.
+Print Assumptions payment_line_total_shipped_refuted.
+
+Theorem payment_total_is_sum cr rates cur c subunits ls out :
+  pay_calc true cr rates cur c subunits ls = Some out ->
+  Forall2 (fun l lt => pl_total true rates cur c l = Some lt) ls (po_lines out) /\
+  match po_total out with
+  | Some t => toQ t == qsum (po_lines out)
+  | None => ls = []
+  end.
+Proof. exact (MergeProofs.payment_total_is_sum cr rates cur c subunits ls out). Qed.
+Print Assumptions payment_total_is_sum.
+
+Theorem payment_defined keep cr rates cur c subunits ls :
+  Forall (fun l => pl_total keep rates cur c l <> None) ls ->
+  pay_calc keep cr rates cur c subunits ls <> None.
+Proof. exact (pay_calc_defined keep cr rates cur c subunits ls). Qed.
+Print Assumptions payment_defined.
+
+(* line_summaries: the recalculated (tt_calculate) document summaries of the lines that carry one *)
+Theorem payment_tax_is_merge_of_lines keep cr rates cur c subunits ls out :
+  pay_calc keep cr rates cur c subunits ls = Some out ->
+  po_tax out = match line_summaries cr c subunits ls with
+               | [] => None
+               | d :: ds => Some (fold_left tt_merge ds d)
+               end.
+Proof. exact (MergeProofs.payment_tax_is_merge_of_lines keep cr rates cur c subunits ls out). Qed.
+Print Assumptions payment_tax_is_merge_of_lines.
+
+(* recalculated summaries are well formed (wf_shape: distinct codes and groups, exempt groups without
+   surcharge rate, no surcharge amount without surcharge rate), so when the documents share the
+   precision c the payment's summary is the component-wise sum of its lines' summaries *)
+Theorem calculate_wf cr c t : wf_shape t -> wf_tt c (tt_calculate cr c t).
+Proof. exact (MergeProofs.calculate_wf cr c t). Qed.
+Print Assumptions calculate_wf.
+
+Example wf_shape_exists : wf_shape ex_tt.
+Proof. split; repeat constructor; discriminate. Qed.
+
+Theorem payment_tax_componentwise keep cr rates cur c subunits ls out :
+  pay_calc keep cr rates cur c subunits ls = Some out ->
+  let ss := line_summaries cr c subunits ls in
+  Forall (wf_tt c) ss ->
+  match ss with
+  | [] => po_tax out = None
+  | _ :: _ =>
+    exists m, po_tax out = Some m /\ wf_tt c m /\
+      (forall code key,
+         group_base m code key = zsum (map (fun x => group_base x code key) ss) /\
+         group_amount m code key = zsum (map (fun x => group_amount x code key) ss) /\
+         group_suramount m code key = zsum (map (fun x => group_suramount x code key) ss)) /\
+      (forall code, cat_amount m code = zsum (map (fun x => cat_amount x code) ss)) /\
+      val (tt_sum m) = zsum (map (fun x => val (tt_sum x)) ss)
+  end.
+Proof. exact (MergeProofs.payment_tax_componentwise keep cr rates cur c subunits ls out). Qed.
+Print Assumptions payment_tax_componentwise.
+
+Example payment_exists :
+  exists out, pay_calc true true [] 0 2%nat (fun _ => 2%nat)
+                [mkPL None (Some (mkA 1005 3)) (Some (mkA 1 3)) (Some (None, Some ex_tt));
+                 mkPL None (Some (mkA 250 2)) None (Some (None, Some ex_tt2))] = Some out /\
+              po_total out = Some (mkA 3504 3) /\ po_tax out = Some (tt_merge ex_tt ex_tt2).
+Proof. eexists. split; [vm_compute; reflexivity|]. split; reflexivity. Qed.
